@@ -299,7 +299,8 @@ PROPS = {
                  "the stream also compares the code directly with the harness's own specification-derived geometry and pixel placement.",
         "note": "Proved: iterator = specification rows, sizes, closed forms, area partition; PLACEMENT tables: passOf_is_spec (interlace_image sends each of the 64 residues of (row, column) mod 8 to the first "
                 "pass of the specification's table whose lattice contains it) with lattice_mod8 (a pixel's pass depends only on the residues, all x, y), interlacedConstants_is_spec (deinterlace_image uses the "
-                "table's shifts and steps), incrementPass_is_spec (for every w, h >= 1 the next pass is the next non-empty one of the specification, or the end). The bit-level scatter/gather loops themselves "
+                "table's shifts and steps), incrementPass_is_spec (for every w, h >= 1 the next pass is the next non-empty one of the specification, or the end), pixel_in_exactly_its_pass and "
+                "adam7Order_each_once (for all sizes every pixel position occurs exactly once in the Adam7 storage order, in the pass interlace_image picks). The bit-level scatter/gather loops themselves "
                 "(their composition to the identity) rest on the exhaustive-up-to-bound correspondence and the direct comparison with specification-derived placement in the same stream. "
                 "Trusted: Lean kernel, correspondence tie (tested), harness reference geometry.",
         "technique": "Lean 4 proof (omega over unbounded sizes) + exhaustive-to-bound model/implementation correspondence",
